@@ -326,7 +326,7 @@ func (p *Prop[C]) execChild(c C) Verdict {
 	cmd := exec.Command(os.Args[0], "-test.run=^TestVerifChild$", "-test.timeout=0") //nolint:gosec
 	cmd.Env = append(os.Environ(),
 		"VERIF_CHILD_CASE="+string(b), "VERIF_CHILD_SUB="+p.Name,
-		"GORACE=exitcode=66 halt_on_error=1", "VERIF_EV_OUT=", "VERIF_LAST=")
+		"GORACE=exitcode=66 halt_on_error=1 atexit_sleep_ms=0", "VERIF_EV_OUT=", "VERIF_LAST=")
 
 	var stdout, stderr bytes.Buffer
 
